@@ -74,11 +74,11 @@ def gen_case(seed):
         s = {"kind": kind, "user": who, "pw": pw_kind, "wrong": gen_password(rnd, allow_long=True), "start": rnd.choice([0.0, 0.0, 0.01, 0.2]), "hold": rnd.random() < 0.5}
         if kind == "raw":
             s["verb"] = rnd.choice(["PASS", "pass", "PaSs", "Pass", "pAsS"])
-            s["order"] = rnd.choice(["normal", "normal", "pass-first", "pass-twice", "pass-after-login", "cut-after-pass", "double-space"])
+            s["order"] = rnd.choice(["normal", "normal", "pass-first", "pass-twice", "pass-after-login", "cut-after-pass", "double-space", "pipelined-login", "pass-behind-pasv"])
         else:
             s["client_encoding"] = rnd.choice(["utf-8", "utf-8", "latin-1"])
         sessions.append(s)
-    return {"seed": seed, "users": users, "sessions": sessions, "server_encoding": rnd.choice(["utf-8", "utf-8", "latin-1"])}
+    return {"seed": seed, "users": users, "sessions": sessions, "server_encoding": rnd.choice(["utf-8", "utf-8", "latin-1"]), "user_manager": rnd.choice(["memory", "memory", "slow", "digest"])}
 
 
 def needles(pw):
@@ -116,7 +116,7 @@ def run_case(case):
     net = scenario.random_net(rng, allow_small_pipe=not long_pw)
     if long_pw and net.get("seg_mode") == "dribble":
         net["seg_mode"] = "mss"
-    sc = {"seed": case["seed"], "server": {"users": case["users"], "encoding": case["server_encoding"], "wait_future_timeout": 1.0}, "net": net, "fs": {"delay": None}}
+    sc = {"seed": case["seed"], "server": {"users": case["users"], "encoding": case["server_encoding"], "wait_future_timeout": 1.0, "user_manager": case.get("user_manager")}, "net": net, "fs": {"delay": None}}
     viol = []
     supplied = []  # every password string any peer supplied
     info = {"logins": 0}
@@ -163,6 +163,24 @@ def run_case(case):
                     await p.connect()
                     order = s["order"]
                     sep = "  " if order == "double-space" else " "
+                    if order in ("pipelined-login", "pass-behind-pasv"):
+                        # the PASS line is read while another command of the session is still
+                        # being handled (USER inside a suspending user manager; PASV opening its
+                        # listener)
+                        if order == "pipelined-login":
+                            burst = ["USER " + s["user"], s["verb"] + sep + pw]
+                        else:
+                            await p.cmd("USER anonymous")
+                            burst = ["EPSV", s["verb"] + sep + pw, "PASV", s["verb"] + sep + pw]
+                        for line in burst:
+                            p.note("C", line)
+                        p.writer.write("".join(line + "\r\n" for line in burst).encode(case["server_encoding"], "replace"))
+                        info["logins"] += 1
+                        for _ in burst:
+                            await p.reply(50.0)
+                        await p.cmd("QUIT")
+                        p.close()
+                        return
                     if order == "pass-first":
                         await p.cmd(s["verb"] + sep + pw)
                     await p.cmd("USER " + s["user"])
